@@ -3,6 +3,7 @@ module verif
 go 1.23.0
 
 require (
+	github.com/golang/snappy v0.0.4
 	github.com/tsuna/gohbase v0.0.0-00010101000000-000000000000
 	golang.org/x/tools v0.29.0
 	google.golang.org/protobuf v1.36.5
@@ -14,7 +15,6 @@ require (
 	github.com/go-logr/logr v1.4.2 // indirect
 	github.com/go-logr/stdr v1.2.2 // indirect
 	github.com/go-zookeeper/zk v1.0.4 // indirect
-	github.com/golang/snappy v0.0.4 // indirect
 	github.com/munnerz/goautoneg v0.0.0-20191010083416-a7dc8b61c822 // indirect
 	github.com/prometheus/client_golang v1.20.5 // indirect
 	github.com/prometheus/client_model v0.6.1 // indirect
